@@ -566,6 +566,11 @@ func (sp *subProcess) run(ctx context.Context, out tracing.ITracer) {
 					sp.active.Add(1)
 					defer sp.active.Add(-1)
 
+					// Subscribe before the inner start events are triggered, otherwise the
+					// first inner traces (up to a task request) can be missed by the relay.
+					traces := sp.subTracer.Subscribe()
+					defer sp.subTracer.Unsubscribe(traces)
+
 					if err := sp.startAll(ctx); err != nil {
 						subProcessId := ""
 						if pid, present := sp.element.Id(); present {
@@ -577,9 +582,6 @@ func (sp *subProcess) run(ctx context.Context, out tracing.ITracer) {
 						}})
 						return
 					}
-
-					traces := sp.subTracer.Subscribe()
-					defer sp.subTracer.Unsubscribe(traces)
 				loop:
 					for {
 						var trace tracing.ITrace
